@@ -186,6 +186,113 @@ fn run_f40(tracer: &Tracer) {
     tracer.emit(json!({"ev":"end","listing":w.dir.listing(),"locks":w.dir.lock_files(),"managed":w.managed()}));
 }
 
+/// finding F55 (repaired): a commit with deletes fails in the directory sync AFTER meta.json was replaced while the
+/// end_merge task of a merge started at the previous commit is queued behind the commit task: the killed updater
+/// must not collect from its registers.  The gate parks the merge thread at its first storage operation, releases
+/// it when the commit task reaches its second sync_directory, waits until the merge thread has gone quiet (its
+/// end_merge is queued) and only then lets the sync fail.
+fn run_killgc(tracer: &Tracer) {
+    use std::sync::{Arc, Condvar, Mutex};
+    use std::time::{Duration, Instant};
+    use vh::simdir::OpInfo;
+    struct St {
+        armed: bool,
+        parked: bool,
+        release: bool,
+        meta_seen: bool,
+        fired: bool,
+        last_merge: Instant,
+    }
+    tracer.reset_canon();
+    let mut cfg = Cfg::default();
+    cfg.flush_after = 3;
+    cfg.merge = "log".into();
+    tracer.emit(json!({"ev":"reset","cfg":cfg.to_json(),"tag":{"killgc":true}}));
+    let mut w = World::new_quiet(tracer, &cfg, false);
+    install_sink(tracer, w.regs.clone(), None);
+    let st = Arc::new((Mutex::new(St { armed: false, parked: false, release: false, meta_seen: false, fired: false, last_merge: Instant::now() }), Condvar::new()));
+    let g2 = st.clone();
+    let dir2 = w.dir.clone();
+    w.dir.set_gate(Some(Arc::new(move |op: &OpInfo, after: bool| {
+        let (m, cv) = &*g2;
+        if op.role.starts_with("merge") {
+            let mut s = m.lock().unwrap();
+            if !s.armed {
+                return;
+            }
+            if !after && !s.release {
+                s.parked = true;
+                cv.notify_all();
+                let t0 = Instant::now();
+                while !s.release && t0.elapsed() < Duration::from_secs(10) {
+                    let (x, _) = cv.wait_timeout(s, Duration::from_millis(10)).unwrap();
+                    s = x;
+                }
+            }
+            s.last_merge = Instant::now();
+            return;
+        }
+        if op.role.starts_with("updater") && !after {
+            let mut s = m.lock().unwrap();
+            if !s.armed || s.fired {
+                return;
+            }
+            if op.op == "atomic_write" && op.path == "meta.json" {
+                s.meta_seen = true;
+                return;
+            }
+            if op.op == "sync_directory" && s.meta_seen && s.parked {
+                s.fired = true;
+                s.release = true;
+                s.last_merge = Instant::now();
+                cv.notify_all();
+                drop(s);
+                let t0 = Instant::now();
+                loop {
+                    std::thread::sleep(Duration::from_millis(20));
+                    let s = m.lock().unwrap();
+                    if s.last_merge.elapsed() > Duration::from_millis(300) || t0.elapsed() > Duration::from_secs(5) {
+                        break;
+                    }
+                }
+                dir2.set_fault(FaultPlan { k: 1, ops: vec!["sync_directory".into()], only_role: "updater".into(), skip_locks: true, ..Default::default() });
+            }
+        }
+    })));
+    let a = |i: u64, t: &str| json!({"op":"add","id":i,"t":t,"v":(i % 5) as i64});
+    w.exec(&json!({"op":"new_writer"}));
+    for op in [a(1, "a"), a(2, "a"), a(3, "b"), a(4, "c"), json!({"op":"commit"}), json!({"op":"reload"}),
+               json!({"op":"run","ops":[{"k":"del","t":"a"},{"k":"add","id":5,"t":"a","v":1}]}), json!({"op":"commit"}), json!({"op":"reload"}),
+               a(6, "b"), json!({"op":"drop_writer"}), json!({"op":"new_writer"}), a(7, "b"), json!({"op":"del","pred":{"k":"term","t":"b"}}), a(8, "b")] {
+        w.exec(&op);
+    }
+    st.0.lock().unwrap().armed = true;
+    w.exec(&json!({"op":"commit"}));
+    let (parked, fired) = {
+        let mut s = st.0.lock().unwrap();
+        s.release = true;
+        s.armed = false;
+        st.1.notify_all();
+        (s.parked, s.fired)
+    };
+    w.exec(&json!({"op":"reload"}));
+    w.exec(&json!({"op":"rollback"}));
+    w.exec(&json!({"op":"reload"}));
+    let nfired = w.dir.st.lock().unwrap().faults_fired;
+    w.dir.set_fault(FaultPlan::default());
+    w.dir.set_gate(None);
+    w.exec(&json!({"op":"drop_writer"}));
+    tracer.emit(json!({"ev":"schedule","name":"end_merge queued behind a commit task whose directory sync fails after meta.json was replaced","realised":parked && fired && nfired > 0}));
+    tracer.emit(json!({"ev":"heal","fired":nfired}));
+    w.exec(&json!({"op":"new_writer"}));
+    w.exec(&json!({"op":"add","id":9000,"t":"zz","v":0}));
+    w.exec(&json!({"op":"commit"}));
+    w.exec(&json!({"op":"wait_merges"}));
+    w.exec(&json!({"op":"observe"}));
+    tantivy::verif::set_sink(None);
+    tracer.emit(json!({"ev":"end","listing":w.dir.listing(),"locks":w.dir.lock_files(),"managed":w.managed()}));
+}
+
 /// a commit that wrote a delete file fails while replacing meta.json; the writer is rolled back and
 /// the SAME transaction is issued again: it draws the same opstamps, so the same delete-file name
 fn run_reuse(tracer: &Tracer, how: &str, retry_term: &str) {
@@ -352,6 +459,11 @@ fn main() {
     }
     if a.pos.get(0).map(|s| s.as_str()) == Some("stall") {
         run_stall(&tracer);
+        tracer.flush();
+        return;
+    }
+    if a.pos.get(0).map(|s| s.as_str()) == Some("killgc") {
+        run_killgc(&tracer);
         tracer.flush();
         return;
     }
